@@ -15,25 +15,31 @@ CONSTANTS T,          \* time horizon
           Timeouts,   \* timeout values the program may set: integers, and NoneT for "no timeout"
           MaxOps,     \* bound on program operations
           OpsAllowed, \* which operations the program uses (model focus)
-          Busy        \* duration of the unrelated request's handler
+          Busy,       \* duration of the unrelated request's handler
+          CallbackKinds \* kinds of callbacks the program registers: "plain", "chain" (registers one more when it runs)
 NoneT == 0 - 99
 NoExpiry == 0 - 1
 
-VARIABLES now, E, st, inbox, replySent, otherSent, quickSent, cbs, fired, prog, busyUntil, obs, nops, waitFrom
-vars == <<now, E, st, inbox, replySent, otherSent, quickSent, cbs, fired, prog, busyUntil, obs, nops, waitFrom>>
+VARIABLES now, E, st, inbox, replySent, otherSent, quickSent, cbs, fired, prog, busyUntil, obs, nops, waitFrom,
+          chain       \* callbacks (by registration number) that, when they run, register one more callback on the same result
+vars == <<now, E, st, inbox, replySent, otherSent, quickSent, cbs, fired, prog, busyUntil, obs, nops, waitFrom, chain>>
 
 Init == /\ now = 0 /\ E = NoExpiry /\ st = "pending" /\ inbox = <<>>
         /\ replySent = FALSE /\ otherSent = FALSE /\ quickSent = FALSE
-        /\ cbs = 0 /\ fired = <<>> /\ prog = "idle" /\ busyUntil = 0 /\ obs = <<>> /\ nops = 0 /\ waitFrom = 0
+        /\ cbs = 0 /\ fired = <<>> /\ prog = "idle" /\ busyUntil = 0 /\ obs = <<>> /\ nops = 0 /\ waitFrom = 0 /\ chain = {}
 
 Expired == E # NoExpiry /\ now >= E                 \* Timeout.expired(): finite and now >= tmax
 Obs(op, res) == obs' = Append(obs, <<op, res, now>>)
 
 \* AsyncResult.__call__: a reply that finds the result expired is dropped, otherwise it is the final outcome and
-\* the registered callbacks run once, in registration order
+\* the registered callbacks run once, in registration order.  A callback that registers another one while it runs
+\* (chain) does so on a result that is ready: the new callback is the last one registered and runs last, after all
+\* the earlier ones, within the same dispatch.
+NewByChain == Cardinality({i \in (Len(fired) + 1)..cbs : i \in chain})
 AfterDispatch == IF st = "pending" /\ ~Expired
-                 THEN [st |-> "value", fired |-> fired \o [i \in 1..(cbs - Len(fired)) |-> Len(fired) + i]]
-                 ELSE [st |-> st, fired |-> fired]
+                 THEN [st |-> "value", cbs |-> cbs + NewByChain,
+                       fired |-> fired \o [i \in 1..(cbs + NewByChain - Len(fired)) |-> Len(fired) + i]]
+                 ELSE [st |-> st, cbs |-> cbs, fired |-> fired]
 
 \* ---------------------------------------------------------------- environment
 Tick == /\ now < T
@@ -41,20 +47,20 @@ Tick == /\ now < T
         /\ prog = "waiting" => (st = "pending" /\ ~Expired /\ inbox = <<>>)
         /\ prog = "busy" => busyUntil > now
         /\ now' = now + 1
-        /\ UNCHANGED <<E, st, inbox, replySent, otherSent, quickSent, cbs, fired, prog, busyUntil, obs, nops, waitFrom>>
+        /\ UNCHANGED <<E, st, inbox, replySent, otherSent, quickSent, cbs, fired, prog, busyUntil, obs, nops, waitFrom, chain>>
 
 ReplyArrives == /\ ~replySent /\ replySent' = TRUE
                 /\ inbox' = Append(inbox, "R")
-                /\ UNCHANGED <<now, E, st, otherSent, quickSent, cbs, fired, prog, busyUntil, obs, nops, waitFrom>>
+                /\ UNCHANGED <<now, E, st, otherSent, quickSent, cbs, fired, prog, busyUntil, obs, nops, waitFrom, chain>>
 
 OtherArrives == /\ ~otherSent /\ otherSent' = TRUE
                 /\ inbox' = Append(inbox, "X")
-                /\ UNCHANGED <<now, E, st, replySent, quickSent, cbs, fired, prog, busyUntil, obs, nops, waitFrom>>
+                /\ UNCHANGED <<now, E, st, replySent, quickSent, cbs, fired, prog, busyUntil, obs, nops, waitFrom, chain>>
 
 \* an unrelated request whose handler returns at once
 QuickArrives == /\ ~quickSent /\ quickSent' = TRUE
                 /\ inbox' = Append(inbox, "Y")
-                /\ UNCHANGED <<now, E, st, replySent, otherSent, cbs, fired, prog, busyUntil, obs, nops, waitFrom>>
+                /\ UNCHANGED <<now, E, st, replySent, otherSent, cbs, fired, prog, busyUntil, obs, nops, waitFrom, chain>>
 
 \* ---------------------------------------------------------------- program operations (only when it is idle)
 CanOp == prog = "idle" /\ nops < MaxOps
@@ -63,31 +69,40 @@ Count == nops' = nops + 1
 SetExpiry(t) == /\ CanOp /\ Count /\ "set_expiry" \in OpsAllowed
                 /\ E' = IF t = NoneT \/ t < 0 THEN NoExpiry ELSE now + t
                 /\ Obs("set_expiry", t)
-                /\ UNCHANGED <<now, st, inbox, replySent, otherSent, quickSent, cbs, fired, prog, busyUntil, waitFrom>>
+                /\ UNCHANGED <<now, st, inbox, replySent, otherSent, quickSent, cbs, fired, prog, busyUntil, waitFrom, chain>>
 
-AddCallback == /\ CanOp /\ Count /\ "add_callback" \in OpsAllowed
-               /\ cbs' = cbs + 1
-               /\ fired' = IF st # "pending" THEN Append(fired, cbs + 1) ELSE fired     \* runs at once if already ready
-               /\ Obs("add_callback", Len(fired'))
-               /\ UNCHANGED <<now, E, st, inbox, replySent, otherSent, quickSent, prog, busyUntil, waitFrom>>
+AddCallback(k) == /\ CanOp /\ Count /\ "add_callback" \in OpsAllowed
+                  /\ IF st # "pending"
+                     THEN \* runs at once; a chaining one registers its successor at once, which runs at once too
+                          IF k = "chain"
+                          THEN cbs' = cbs + 2 /\ fired' = fired \o <<cbs + 1, cbs + 2>> /\ chain' = chain \cup {cbs + 1}
+                          ELSE cbs' = cbs + 1 /\ fired' = Append(fired, cbs + 1) /\ UNCHANGED chain
+                     ELSE /\ cbs' = cbs + 1 /\ UNCHANGED fired
+                          /\ chain' = IF k = "chain" THEN chain \cup {cbs + 1} ELSE chain
+                  /\ Obs("add_callback", Len(fired'))
+                  /\ UNCHANGED <<now, E, st, inbox, replySent, otherSent, quickSent, prog, busyUntil, waitFrom>>
 
 QExpired == /\ CanOp /\ Count /\ "expired" \in OpsAllowed
             /\ Obs("expired", st = "pending" /\ Expired)
-            /\ UNCHANGED <<now, E, st, inbox, replySent, otherSent, quickSent, cbs, fired, prog, busyUntil, waitFrom>>
+            /\ UNCHANGED <<now, E, st, inbox, replySent, otherSent, quickSent, cbs, fired, prog, busyUntil, waitFrom, chain>>
+
+\* the reply is dispatched / nothing is dispatched
+Disp == st' = AfterDispatch.st /\ fired' = AfterDispatch.fired /\ cbs' = AfterDispatch.cbs
+NoDisp == UNCHANGED <<st, fired, cbs>>
 
 \* the ready query serves whatever has arrived (poll_all) unless the answer is already determined; an unrelated request
 \* makes it busy first (not modelled inside the query: the query is only issued when no unrelated request is queued)
 QReady == /\ CanOp /\ Count /\ "ready" \in OpsAllowed
           /\ \A i \in 1..Len(inbox) : inbox[i] # "X"
-          /\ IF st # "pending" THEN /\ Obs("ready", TRUE) /\ UNCHANGED <<st, fired, inbox>>
-             ELSE IF Expired THEN /\ Obs("ready", FALSE) /\ UNCHANGED <<st, fired, inbox>>
+          /\ IF st # "pending" THEN /\ Obs("ready", TRUE) /\ NoDisp /\ UNCHANGED inbox
+             ELSE IF Expired THEN /\ Obs("ready", FALSE) /\ NoDisp /\ UNCHANGED inbox
              ELSE IF inbox # <<>>
                   THEN /\ inbox' = Tail(inbox)
                        /\ IF Head(inbox) = "R"
-                          THEN st' = AfterDispatch.st /\ fired' = AfterDispatch.fired /\ Obs("ready", AfterDispatch.st # "pending")
-                          ELSE UNCHANGED <<st, fired>> /\ Obs("ready", FALSE)
-                  ELSE /\ Obs("ready", FALSE) /\ UNCHANGED <<st, fired, inbox>>
-          /\ UNCHANGED <<now, E, replySent, otherSent, quickSent, cbs, prog, busyUntil, waitFrom>>
+                          THEN Disp /\ Obs("ready", AfterDispatch.st # "pending")
+                          ELSE NoDisp /\ Obs("ready", FALSE)
+                  ELSE /\ Obs("ready", FALSE) /\ NoDisp /\ UNCHANGED inbox
+          /\ UNCHANGED <<now, E, replySent, otherSent, quickSent, prog, busyUntil, waitFrom, chain>>
 
 \* the program serves the connection for some other purpose (conn.poll()): one frame is processed if one has arrived;
 \* a reply that arrives after the expiry is thereby discarded
@@ -95,41 +110,40 @@ PollOther == /\ CanOp /\ Count /\ "poll" \in OpsAllowed
              /\ \A i \in 1..Len(inbox) : inbox[i] # "X"
              /\ IF inbox # <<>>
                 THEN /\ inbox' = Tail(inbox) /\ Obs("poll", TRUE)
-                     /\ IF Head(inbox) = "R" THEN st' = AfterDispatch.st /\ fired' = AfterDispatch.fired
-                                             ELSE UNCHANGED <<st, fired>>
-                ELSE /\ Obs("poll", FALSE) /\ UNCHANGED <<st, fired, inbox>>
-             /\ UNCHANGED <<now, E, replySent, otherSent, quickSent, cbs, prog, busyUntil, waitFrom>>
+                     /\ IF Head(inbox) = "R" THEN Disp ELSE NoDisp
+                ELSE /\ Obs("poll", FALSE) /\ NoDisp /\ UNCHANGED inbox
+             /\ UNCHANGED <<now, E, replySent, otherSent, quickSent, prog, busyUntil, waitFrom, chain>>
 
 StartWait == /\ CanOp /\ Count /\ "wait" \in OpsAllowed
              /\ prog' = "waiting" /\ waitFrom' = now
-             /\ UNCHANGED <<now, E, st, inbox, replySent, otherSent, quickSent, cbs, fired, busyUntil, obs>>
+             /\ UNCHANGED <<now, E, st, inbox, replySent, otherSent, quickSent, cbs, fired, busyUntil, obs, chain>>
 
 \* ---------------------------------------------------------------- inside wait(): while not ready and not expired: serve(ttl)
 WaitReturn == /\ prog = "waiting" /\ st # "pending"
               /\ prog' = "idle" /\ Obs("wait", "ok")
-              /\ UNCHANGED <<now, E, st, inbox, replySent, otherSent, quickSent, cbs, fired, busyUntil, nops, waitFrom>>
+              /\ UNCHANGED <<now, E, st, inbox, replySent, otherSent, quickSent, cbs, fired, busyUntil, nops, waitFrom, chain>>
 
 WaitTimeout == /\ prog = "waiting" /\ st = "pending" /\ Expired
                /\ prog' = "idle" /\ Obs("wait", "timeout")
-               /\ UNCHANGED <<now, E, st, inbox, replySent, otherSent, quickSent, cbs, fired, busyUntil, nops, waitFrom>>
+               /\ UNCHANGED <<now, E, st, inbox, replySent, otherSent, quickSent, cbs, fired, busyUntil, nops, waitFrom, chain>>
 
 WaitServe == /\ prog = "waiting" /\ st = "pending" /\ ~Expired /\ inbox # <<>>
              /\ inbox' = Tail(inbox)
              /\ IF Head(inbox) = "R"
-                THEN /\ st' = AfterDispatch.st /\ fired' = AfterDispatch.fired /\ UNCHANGED <<prog, busyUntil>>
+                THEN /\ Disp /\ UNCHANGED <<prog, busyUntil>>
                 ELSE IF Head(inbox) = "Y"
-                THEN UNCHANGED <<st, fired, prog, busyUntil>>       \* served at once; the waiter goes on waiting until E
-                ELSE /\ prog' = "busy" /\ busyUntil' = now + Busy /\ UNCHANGED <<st, fired>>
-             /\ UNCHANGED <<now, E, replySent, otherSent, quickSent, cbs, obs, nops, waitFrom>>
+                THEN NoDisp /\ UNCHANGED <<prog, busyUntil>>       \* served at once; the waiter goes on waiting until E
+                ELSE /\ prog' = "busy" /\ busyUntil' = now + Busy /\ NoDisp
+             /\ UNCHANGED <<now, E, replySent, otherSent, quickSent, obs, nops, waitFrom, chain>>
 
 BusyDone == /\ prog = "busy" /\ busyUntil <= now
             /\ prog' = "waiting"
-            /\ UNCHANGED <<now, E, st, inbox, replySent, otherSent, quickSent, cbs, fired, busyUntil, obs, nops, waitFrom>>
+            /\ UNCHANGED <<now, E, st, inbox, replySent, otherSent, quickSent, cbs, fired, busyUntil, obs, nops, waitFrom, chain>>
 
 Done == now = T /\ UNCHANGED vars
 Next == \/ Tick \/ ReplyArrives \/ OtherArrives \/ QuickArrives
         \/ \E t \in Timeouts : SetExpiry(t)
-        \/ AddCallback \/ QExpired \/ QReady \/ PollOther \/ StartWait
+        \/ (\E k \in CallbackKinds : AddCallback(k)) \/ QExpired \/ QReady \/ PollOther \/ StartWait
         \/ WaitReturn \/ WaitTimeout \/ WaitServe \/ BusyDone \/ Done
 Spec == Init /\ [][Next]_vars
 
